@@ -18,7 +18,7 @@ LEVEL = "exploration"
 SHARDS = {"quick": 1, "thorough": 16}
 REQUIRED = ("families_with_counted_sequences_of_possibly_empty_elements", "families_ending_in_an_odd_width_int", "prefix_cases", "suffix_cases", "failing_cases_shifted", "values_compared", "end_offsets_compared",
             "raw_slice_equivalence", "hostile_pre_with_delimiters", "nested_families", "moves_under_offset",
-            "inputs_of_declarations_with_a_position_before_the_wrapper")
+            "inputs_of_declarations_with_a_position_before_the_wrapper", "same_object_reparses", "corrupted_inputs")
 MIN_NONTRIVIAL = 150
 RULE = {
     "quick": "~140 families of mostly fixed-size fields placed back over consumed bytes (at / negative shift) + ~420 generated families (no 'begins' reference, no class align, no repeated(aligned=), no raw/offset callbacks) x 8 inputs x 4 "
@@ -75,6 +75,43 @@ def summarize(fam, r):
     if r.status == "timeout":
         return ("timeout",)
     return ("exception", r.etype)
+
+
+def same_object_reparse(run, bench, rng, used, can_post):
+    """One bytes object parsed several times at different offsets, later parses at *smaller* offsets (records read
+    last-to-first): whatever a field remembers about the buffer of the previous call must not leak into the next one.
+    big = pre + used + used: the parse at the second copy has only a prefix; the parse at the first copy (afterwards,
+    same object) has the second copy as suffix and is judged only where suffixes are (post_allowed)."""
+    fam = bench.fam
+    if not used:
+        return
+    for v in ("g", "d"):
+        cls = bench.root(v)
+        base = summarize(fam, harness.lib_unpack(cls, used, 0))
+        if base[0] not in ("ok", "packeterror"):
+            continue
+        k, pre = hostile(rng, used, rng.choice([0, 1, 2, 5]))
+        big = pre + used + used
+        offs = [len(pre) + len(used)]
+        if can_post and base[0] == "ok":
+            offs.append(len(pre))
+        # a parse somewhere in between (any outcome) so that the remembered buffer position is not a record start
+        harness.lib_unpack(cls, big, len(big) - 1)
+        for off in offs:
+            got = summarize(fam, harness.lib_unpack(cls, big, off))
+            if got[0] == "timeout":
+                continue
+            run.count("same_object_reparses")
+            witness = {"source": driver.src_of(bench, v), "raw": b2j(used), "pre": b2j(big[:off]), "post": b2j(big[off + len(used):]), "variant": v,
+                       "padding": "same-object:%s" % k, "fam": fam, "history": "unpack(big, %d) (any outcome), then descending offsets %r on the same bytes object" % (len(big) - 1, offs)}
+            if base[0] == "ok":
+                same = got[0] == "ok" and got[1] == base[1] and got[2] == base[2] + off
+            else:
+                same = got[0] == "packeterror" and got[1] == [(o + off, n, c) for (o, n, c) in base[1]]
+            if not same:
+                run.violation("re-parsing the same bytes object at a smaller offset gives another result than parsing the record alone (offset %d)" % off,
+                              dict(witness, alone=repr(base)[:300], padded=repr(got)[:300]), None)
+                break
 
 
 def one_input(run, bench, rng, raw, sampled):
@@ -165,6 +202,7 @@ def one_input(run, bench, rng, raw, sampled):
                     run.violation("error positions are not shifted by exactly the start offset (%s)" % label,
                                   dict(witness, alone=base[1], padded=got[1]), None)
                     continue
+    same_object_reparse(run, bench, rng, used, can_post)
     if sampled[0] < 3 and st == "ok" and len(used) > 3:
         sampled[0] += 1
         run.sample({"source": driver.src_of(bench), "raw": used, "paddings": "pre / long pre / post / both, hostile content"})
@@ -216,6 +254,23 @@ def run(run):
             if j % 3 == 0 and len(raw) > 1:
                 k = rng.randrange(len(raw))
                 one_input(run, bench, rng, raw[:k], sampled)
+            if j % 3 == 1 and raw:
+                # malformed inputs (a steering byte replaced): sizes that come out negative or huge, unknown selector keys, ...
+                st0, mr0 = harness.model_parse(fam, raw, 0)
+                bads = [bad for _, bad in workloads.corruptions(fam, rng, raw, mr0 if st0 == "ok" else None, n=2)]
+                # steering bytes set to values that read as small negative numbers in signed fields and make differences
+                # `c - field` negative: a size of -(cursor + k) moves the cursor k bytes before the start of the record,
+                # where what is found depends on whether there is a prefix
+                steer = workloads.interesting_positions(fam, mr0) if st0 == "ok" else []
+                for p in rng.sample(steer, min(len(steer), 2)):
+                    if p < len(raw):
+                        b = bytearray(raw)
+                        b[p] = rng.choice([0xFF, 0xFE, 0xFD, 0xFC, 0xFB, 0xFA, 0xF8, 0, 4, 5, 6, 7])
+                        bads.append(bytes(b))
+                for bad in bads:
+                    if bad != raw:
+                        run.count("corrupted_inputs")
+                        one_input(run, bench, rng, bad, sampled)
         if run.counters["violations"] > 30:
             break
 
